@@ -102,6 +102,23 @@ Theorem C15_remote_submit_to_plain_type :
 Proof. exact remote_submit_to_plain_type. Qed.
 Print Assumptions C15_remote_submit_to_plain_type.
 
+(* Which connection is "the local socket": the test compares the WHOLE network name with "unix".
+   The network name of a mesh stream contains the node ID, which is free text; whatever the node ID
+   (and the de-duplication suffix) is, a mesh stream and a TCP connection are not the local socket *)
+Theorem C15_network_name_decides : forall c node suffix,
+  conn_is_unix (net_of c node suffix) = is_unix c.
+Proof. exact network_name_decides. Qed.
+Print Assumptions C15_network_name_decides.
+
+(* ... whereas looking for "unix" anywhere in the name exempts every client of node "munix1" *)
+Theorem C15_contains_unix_refuted :
+  let node := [109; 117; 110; 105; 120; 49] in
+  conn_is_unix (net_of Mesh node []) = false /\
+  conn_contains_unix (net_of Mesh node []) = true /\
+  ~ (forall c node suffix, conn_contains_unix (net_of c node suffix) = is_unix c).
+Proof. exact contains_unix_refuted. Qed.
+Print Assumptions C15_contains_unix_refuted.
+
 (* non-vacuity: allowed and refused instances of the hypotheses on a concrete node *)
 Example C15_nonvacuous :
   exec ex_jwt true ex_state Tcp [1] (Cancel 1)
